@@ -1,0 +1,29 @@
+//! Verification instrumentation (cargo feature `verif-hooks`, off by default).
+//!
+//! `sched_point(site)` is called between the separately locked steps of the
+//! container operations. It does nothing unless an external test harness has
+//! installed a controller, in which case the controller is invoked with the
+//! static site label (it may block the calling thread to impose a schedule, or
+//! inject a delay). No call site is inside a lock scope.
+
+use std::sync::{Arc, RwLock};
+
+/// Controller callback type.
+pub type Controller = Arc<dyn Fn(&'static str) + Send + Sync>;
+
+static CONTROLLER: RwLock<Option<Controller>> = RwLock::new(None);
+
+/// Install (or clear) the process-wide controller.
+pub fn set_controller(controller: Option<Controller>) {
+    if let Ok(mut guard) = CONTROLLER.write() {
+        *guard = controller;
+    }
+}
+
+/// Scheduling point; no-op when no controller is installed.
+pub fn sched_point(site: &'static str) {
+    let controller = CONTROLLER.read().ok().and_then(|g| g.clone());
+    if let Some(controller) = controller {
+        controller(site);
+    }
+}
